@@ -425,11 +425,32 @@ struct CliRun {
 /// Feed `size` bytes from `gen` to the CLI's stdin (first a short write, then 64 KiB writes), withholding
 /// the last MiB until output has caught up; stdout is drained and counted; returns peak RSS from wait4.
 fn cli_stream(args: &[&str], env: &[(&str, &str)], cwd: &std::path::Path, input: Box<dyn FnMut(&mut [u8]) -> usize + Send>, size: usize, via_fifo: bool) -> Result<CliRun, String> {
+    cli_stream_opts(args, env, cwd, input, size, via_fifo, 0)
+}
+
+/// `stall_ms` > 0: the child's stdout is a NON-BLOCKING pipe whose reader does not start draining for that long
+fn cli_stream_opts(args: &[&str], env: &[(&str, &str)], cwd: &std::path::Path, input: Box<dyn FnMut(&mut [u8]) -> usize + Send>, size: usize, via_fifo: bool, stall_ms: u64) -> Result<CliRun, String> {
+    use std::os::unix::io::FromRawFd;
     use std::process::{Command, Stdio};
     use std::sync::atomic::{AtomicUsize, Ordering};
     use std::sync::Arc;
     let mut c = Command::new(KESTREL);
-    c.args(args).env_clear().current_dir(cwd).stdout(Stdio::piped()).stderr(Stdio::null());
+    c.args(args).env_clear().current_dir(cwd).stderr(Stdio::null());
+    let mut own_read_end: Option<std::fs::File> = None;
+    if stall_ms > 0 {
+        let mut fds = [0i32; 2];
+        unsafe {
+            if libc::pipe2(fds.as_mut_ptr(), libc::O_CLOEXEC) != 0 {
+                return Err("pipe2 failed".into());
+            }
+            let fl = libc::fcntl(fds[1], libc::F_GETFL);
+            libc::fcntl(fds[1], libc::F_SETFL, fl | libc::O_NONBLOCK);
+            c.stdout(Stdio::from_raw_fd(fds[1]));
+            own_read_end = Some(std::fs::File::from_raw_fd(fds[0]));
+        }
+    } else {
+        c.stdout(Stdio::piped());
+    }
     let fifo_path = cwd.join("in.fifo");
     if via_fifo {
         // the input is a named pipe given as the FILE argument
@@ -455,10 +476,17 @@ fn cli_stream(args: &[&str], env: &[(&str, &str)], cwd: &std::path::Path, input:
     } else {
         Box::new(child.stdin.take().unwrap())
     };
-    let mut so = child.stdout.take().unwrap();
+    drop(c); // releases the parent's copy of the non-blocking write end
+    let mut so: Box<dyn Read + Send> = match own_read_end {
+        Some(f) => Box::new(f),
+        None => Box::new(child.stdout.take().unwrap()),
+    };
     let outn = Arc::new(AtomicUsize::new(0));
     let o2 = outn.clone();
     let reader = std::thread::spawn(move || {
+        if stall_ms > 0 {
+            std::thread::sleep(std::time::Duration::from_millis(stall_ms));
+        }
         let mut buf = vec![0u8; 1 << 16];
         loop {
             match so.read(&mut buf) {
@@ -478,7 +506,7 @@ fn cli_stream(args: &[&str], env: &[(&str, &str)], cwd: &std::path::Path, input:
         let mut paused = (0usize, 0usize);
         let mut first = true;
         while sent < size {
-            if sent >= hold && paused == (0, 0) && size > (4 << 20) {
+            if stall_ms == 0 && sent >= hold && paused == (0, 0) && size > (4 << 20) {
                 // withhold the tail until the output has caught up (or 10 s)
                 let t0 = std::time::Instant::now();
                 while o3.load(Ordering::SeqCst) + (2 << 20) < sent && t0.elapsed().as_secs() < 10 {
@@ -590,6 +618,39 @@ fn cli_level(rep: &Report) {
             })
             .collect()
     };
+    // non-blocking stdout pipe with a reader that stalls for 1.5 s: whatever the exit status, memory must not absorb the stream
+    {
+        let big = *sizes.iter().max().unwrap();
+        for (name, args, pw) in cmds.iter().filter(|c| c.0.ends_with("encrypt")) {
+            rep.eval(1);
+            rep.nontrivial(format!("cli-nonblock-{}", name).as_bytes());
+            let sc = Scratch::new();
+            sc.write("kr.txt", kr.as_bytes());
+            let mut pos = 0usize;
+            let input: Box<dyn FnMut(&mut [u8]) -> usize + Send> = Box::new(move |b: &mut [u8]| {
+                let n = b.len().min(big - pos);
+                for (k, x) in b[..n].iter_mut().enumerate() {
+                    *x = pbyte(pos + k);
+                }
+                pos += n;
+                n
+            });
+            match cli_stream_opts(args, &[("KESTREL_PASSWORD", pw)], &sc.0, input, big, false, 1500) {
+                Err(e) => crate::report::machinery(&format!("CLI streaming run failed to start: {}", e)),
+                Ok(c) => {
+                    let base = results.iter().filter(|r| r.0 == *name).filter_map(|r| r.2.as_ref().ok()).map(|x| x.maxrss_kib).min().unwrap_or(0);
+                    rep.extra(&format!("cli_nonblocking_stdout_{}", name), json!({"exit":c.code,"maxrss_kib":c.maxrss_kib,"baseline_kib":base}));
+                    if base > 0 && c.maxrss_kib - base > 8 * 1024 {
+                        rep.violation(
+                            &format!("cli/rss-grows-nonblocking-stdout-{}", name),
+                            json!({"kind":"cli-nonblock","cmd":name}),
+                            format!("kestrel {} into a non-blocking stdout pipe whose reader stalls: peak RSS {} KiB vs {} KiB with a blocking pipe ({} bytes of input offered)", name, c.maxrss_kib, base, big),
+                        );
+                    }
+                }
+            }
+        }
+    }
     let mut names: Vec<String> = results.iter().map(|r| r.0.clone()).collect();
     names.sort();
     names.dedup();
